@@ -1,10 +1,12 @@
 """C07  ISV and JFA enrolment climbs to the joint posterior mode of the latent factors."""
+import copy
+
 import numpy as np
 
 from .. import coqio as cq
 from .. import fa
 from .. import gen
-from ..impl import hexlist
+from ..impl import da, hexlist
 
 
 def enroll_with_x(m, kind, stats, iters):
@@ -50,6 +52,29 @@ def run(chk):
         else:
             y, z = m.enroll(stats)
             y, z = np.asarray(y), np.asarray(z)
+        # the same statistics held in lazy Dask arrays (as acc_stats of a Dask array returns them), and a second enrolment on the same machine
+        if i % 4 == 1:
+            dstats = []
+            for q_ in stats:
+                dq_ = copy.copy(q_)
+                dq_.n, dq_.sum_px, dq_.sum_pxx = da.from_array(np.asarray(q_.n)), da.from_array(np.asarray(q_.sum_px)), da.from_array(np.asarray(q_.sum_pxx))
+                dstats.append(dq_)
+            try:
+                ed = m.enroll(dstats)
+                zd = np.asarray(ed[0] if kind == "isv" else ed[1], dtype=float).ravel()
+                chk.count(1, key=("dask-backed-stats", kind))
+                if not np.allclose(zd, np.asarray(z).ravel(), rtol=1e-9, atol=1e-12):
+                    chk.fail("%s enrolment from statistics held in Dask arrays differs from the same statistics in NumPy arrays" % kind, ctx)
+            except Exception as e:
+                chk.fail("%s enrolment from statistics held in Dask arrays raises %r" % (kind, e), ctx)
+        if i % 4 == 2:
+            again = m.enroll(stats)          # same machine, same sessions: an enrolment does not depend on the previous one
+            za = np.asarray(again[0] if kind == "isv" else again[1], dtype=float).ravel()
+            chk.count(1, key=("second-enrolment", kind))
+            if not np.array_equal(za, np.asarray(z).ravel()):
+                chk.fail("a second %s enrolment of the same statistics on the same machine gives other factors than the first" % kind, ctx)
+            if np.shares_memory(np.asarray(again[0] if kind == "isv" else again[1]), np.asarray(z)) :
+                chk.fail("two %s enrolments on the same machine return the same memory" % kind, ctx)
         sc = max(1.0, float(np.abs(z).max()))
         terms.append("{| en_u := %s; en_f := %s; en_rU := %s; en_rV := %s; en_D := %s; en_iters := %s; en_x := %s; en_rtol := %s; en_atol := %s; en_y := %s; en_z := %s |}" % (
             fa.ubm_term(ubm), fa.fa_term(m, kind), cq.nat(rU), cq.nat(0 if kind == "isv" else rV), cq.nat(D), cq.nat(K), fa.gstats_term(stats),
